@@ -55,6 +55,11 @@ const (
 	KClient  Kind = 19 // harness-level operation boundary (Invoke/Return)
 	KRange   Kind = 20 // receive performed by a woven `for range ch`
 	KAwait   Kind = 21 // harness client waiting for a Signal
+	// sync.Cond is simulated, not executed: a waiter registers (CondAdd),
+	// unlocks, parks here until a Signal/Broadcast notifies it, and locks.
+	KCondWait      Kind = 22
+	KCondSignal    Kind = 23
+	KCondBroadcast Kind = 24
 )
 
 var kindNames = map[Kind]string{
@@ -62,6 +67,7 @@ var kindNames = map[Kind]string{
 	KLock: "lock", KUnlock: "unlock", KRLock: "rlock", KRUnlock: "runlock",
 	KWgAdd: "wgadd", KWgDone: "wgdone", KWgWait: "wgwait", KOnce: "once", KAtomic: "atomic",
 	KSpawn: "spawn", KStart: "start", KIO: "io", KYield: "yield", KClient: "client", KRange: "recv", KAwait: "await",
+	KCondWait: "condwait", KCondSignal: "condsignal", KCondBroadcast: "condbroadcast",
 }
 
 func (k Kind) String() string {
@@ -112,6 +118,8 @@ type G struct {
 	vc    VC
 
 	chIdx int // index assigned to the channel op in flight
+
+	condNotified bool // a Signal/Broadcast picked this waiter
 
 	wasBlocked bool
 
@@ -255,6 +263,7 @@ type Sim struct {
 	chans   map[uintptr]*chanState
 	wgs     map[uintptr]*VC
 	atoms   map[uintptr]*VC
+	conds   map[uintptr]*condState
 	shadow  map[uintptr]*shadowWord
 	labels  map[uintptr]int
 	keepers []interface{}
@@ -294,6 +303,13 @@ type clientSpec struct {
 type lockState struct {
 	owner   *G
 	readers int
+	vc      VC
+}
+
+// condState: the waiters of a sync.Cond in registration order (the order in
+// which the runtime notifies them) and the clock of its notifications.
+type condState struct {
+	waiters []*G
 	vc      VC
 }
 
@@ -339,6 +355,7 @@ func New(cfg Config) *Sim {
 		chans:   map[uintptr]*chanState{},
 		wgs:     map[uintptr]*VC{},
 		atoms:   map[uintptr]*VC{},
+		conds:   map[uintptr]*condState{},
 		shadow:  map[uintptr]*shadowWord{},
 		labels:  map[uintptr]int{},
 		faultAt: map[int]FaultSpec{},
@@ -852,6 +869,16 @@ func (s *Sim) chanOf(p *pending) *chanState {
 	return cs
 }
 
+func (s *Sim) condOf(p *pending) *condState {
+	cs := s.conds[p.obj]
+	if cs == nil {
+		cs = &condState{}
+		s.conds[p.obj] = cs
+		s.label(p.obj, p.keep)
+	}
+	return cs
+}
+
 func (s *Sim) lockOf(k uintptr) *lockState {
 	ls := s.locks[k]
 	if ls == nil {
@@ -931,6 +958,10 @@ func (s *Sim) enabledLocked() []*G {
 				if s.signals[p.label] == nil {
 					continue
 				}
+			case KCondWait:
+				if !g.condNotified {
+					continue
+				}
 			}
 		}
 		en = append(en, g)
@@ -993,6 +1024,21 @@ func (s *Sim) release(g *G) {
 			g.vc.join(*vc)
 			*vc = g.vc.copy()
 			g.vc.tick(g.ID)
+		case KCondSignal, KCondBroadcast:
+			cs := s.condOf(p)
+			cs.vc.join(g.vc)
+			g.vc.tick(g.ID)
+			n := len(cs.waiters)
+			if p.kind == KCondSignal && n > 1 {
+				n = 1
+			}
+			for _, w := range cs.waiters[:n] {
+				w.condNotified = true
+			}
+			cs.waiters = cs.waiters[n:]
+		case KCondWait:
+			g.vc.join(s.condOf(p).vc)
+			g.condNotified = false
 		case KIO:
 			ord := s.ioN
 			s.ioN++
